@@ -7,7 +7,7 @@ use proptest::strategy::BoxedStrategy;
 use serde::{Deserialize, Serialize};
 use serde_json::{json, Value};
 use std::sync::Arc;
-use vmodel::declgen::{build_history, dynamic_menu, expected_read, history_spec_strategy, struct_decl, unframed_removal, HistorySpec, ReadErr};
+use vmodel::declgen::{build_history, dynamic_menu, expected_read, expected_read_adapt, history_spec_strategy, struct_decl, unframed_removal, HistorySpec, ReadErr};
 use vmodel::evidence::Acc;
 use vmodel::gen::{pick, val_strategy, ValCfg};
 use vmodel::{canon, derive_seed, hash_json, hex, Record, Ty, Val};
@@ -326,12 +326,16 @@ pub fn run_c03(cx: &Cx) -> PropResult {
             acc.bump("compiled_tuple_variant_histories", 1);
         }
         let strat = if shard % 4 == 3 { evo_case_strategy(6, 40) } else { evo_case_strategy(5, 8) };
-        drive(crate::run::tag_seed(derive_seed(cx.seed, cx.prop, shard as u64, 0), 0), &strat, per_shard, acc, &|c: &EvoCase| to_json(c), &mut |c, a, r| check_c03(c, a, r));
+        if drive(crate::run::tag_seed(derive_seed(cx.seed, cx.prop, shard as u64, 0), 0), &strat, per_shard, acc, &|c: &EvoCase| to_json(c), &mut |c, a, r| check_c03(c, a, r)) {
+            return;
+        }
+        // co-evolving nested declarations
+        drive(crate::run::tag_seed(derive_seed(cx.seed, cx.prop, shard as u64, 3), 3), &nested_case_strategy(), per_shard / 2, acc, &|c: &NestedCase| to_json(&json!({"Nested": c})), &mut |c, a, r| check_c03_nested(c, a, r));
     });
     let mut r = PropResult::new(
         acc,
         "exploration",
-        "E3 cases = (legal evolution history H built by construction from a generated spec: 0-6 initial fields incl. transient ones, up to 8 (every 4th shard: 40) steps of FieldAdded at a random declaration position / FieldMadeOptional / FieldRemoved / FieldMadeTransient; writer version w; reader version r; value of version w; placement: top level, between two sibling fields of a tuple, element of a Vec, inside Option, body of a struct variant of an enum). Both versions are driven through AdtSerializer / AdtDeserializer exactly as the derive expansion does (E3; validated against the real expansion by C02). Oracle: expected(H, w, r, v) computed on the logical level from the documentation (default / wrap / unwrap / absent-if-optional / the two specific errors with the field name, first error in declaration order), siblings intact and the whole buffer consumed. Non-trivial = w != r; classes = reader branch x (w<r, w=r, w>r) x placement. E2 cases: the same check on all versions of the 36 histories of the compiled batch (types H{h}V{i} generated by vgen and compiled with the real derive macro), all (w, r) pairs; histories whose types contain a user-level DeduplicatedString only with w = r. Field types include nested records with histories of their own (same definition on both sides), three of them with removed-field names in their headers. Tuple variants: histories whose fields are only appended (positional names stay stable) are compiled as enums T{t}V{v} = { Nil, Rec(..) } with the history on the tuple variant, and all (w, r) pairs are read through the macro's positional-field code.",
+        "E3 cases = (legal evolution history H built by construction from a generated spec: 0-6 initial fields incl. transient ones, up to 8 (every 4th shard: 40) steps of FieldAdded at a random declaration position / FieldMadeOptional / FieldRemoved / FieldMadeTransient; writer version w; reader version r; value of version w; placement: top level, between two sibling fields of a tuple, element of a Vec, inside Option, body of a struct variant of an enum). Both versions are driven through AdtSerializer / AdtDeserializer exactly as the derive expansion does (E3; validated against the real expansion by C02). Oracle: expected(H, w, r, v) computed on the logical level from the documentation (default / wrap / unwrap / absent-if-optional / the two specific errors with the field name, first error in declaration order), siblings intact and the whole buffer consumed. Non-trivial = w != r; classes = reader branch x (w<r, w=r, w>r) x placement. E2 cases: the same check on all versions of the 36 histories of the compiled batch (types H{h}V{i} generated by vgen and compiled with the real derive macro), all (w, r) pairs; histories whose types contain a user-level DeduplicatedString only with w = r. Field types include nested records with histories of their own (same definition on both sides), three of them with removed-field names in their headers. Tuple variants: histories whose fields are only appended (positional names stay stable) are compiled as enums T{t}V{v} = { Nil, Rec(..) } with the history on the tuple variant, and all (w, r) pairs are read through the macro's positional-field code. Co-evolving nested declarations: the outer record and a record it contains (directly, in Option / Vec / tuple / BTreeMap values) both have generated histories; writer and reader are application versions (outer version, inner version), monotone; the oracle composes the documented outcome of both levels in field order (first error wins, with the inner field's name).",
     );
     r.assumptions = vec![
         "DESIGN section 9: embedded placement with stored version 0 and a removed chunk-0 field is outside the quantifier (counted under excluded_by_construction)".into(),
@@ -372,6 +376,10 @@ fn known_f17(r: &mut PropResult) {
 }
 
 pub fn replay_c03(case: &Value) -> Verdict {
+    if let Some(t) = case.get("Nested") {
+        let c: NestedCase = serde_json::from_value(t.clone()).expect("replay case");
+        return check_c03_nested(&c, &mut Acc::new(), false);
+    }
     if let Some(t) = case.get("Tuple") {
         let c: TupleEvoCase = serde_json::from_value(t.clone()).expect("replay case");
         return check_c03_tuple(&c, &mut Acc::new(), false);
@@ -487,4 +495,191 @@ pub fn check_c03_tuple(c: &TupleEvoCase, acc: &mut Acc, record: bool) -> Verdict
         (Ok(e), Err(g)) => Verdict::Fail(format!("T{}V{} failed to read data of T{}V{}: {g:?}; documented outcome is {} (steps {:?}, bytes {})", c.t, c.r, c.t, c.w, e.brief(), records.last().unwrap().steps, hex(&bytes))),
         (Err(e), Ok(g)) => Verdict::Fail(format!("T{}V{} read data of T{}V{} as {} — documented outcome is the error {e:?}", c.t, c.r, c.t, c.w, g.brief())),
     }
+}
+
+// ---- co-evolving nested declarations: the outer record and a record it contains both have histories; an application
+// version is a pair (outer version, inner version), monotone along the application's life
+
+#[derive(Debug, Clone, Serialize, Deserialize)]
+pub struct NestedCase {
+    pub outer: HistorySpec,
+    pub inner: HistorySpec,
+    /// writer = (ow, iw), reader = (or, ir); (ow - or) and (iw - ir) never have opposite signs
+    pub ow: usize,
+    pub or: usize,
+    pub iw: usize,
+    pub ir: usize,
+    pub placement: Placement,
+    pub val: Val,
+}
+
+fn inner_name(c_inner: &HistorySpec, j: usize) -> String {
+    format!("DynI{:08x}v{j}", hash_json(c_inner) as u32)
+}
+
+fn inner_versions(spec: &HistorySpec) -> Vec<Record> {
+    let a = |t: Ty| Arc::new(t);
+    build_history(spec, &[Ty::U8, Ty::Str, Ty::Option(a(Ty::U32)), Ty::Vec(a(Ty::U16)), Ty::Bool, Ty::I64, Ty::Tuple(vec![Ty::U8, Ty::Str]), Ty::Char])
+}
+
+/// the outer history spelled with inner version `j`: the same spec picks the same shapes from a menu of the same
+/// length, only the nested declaration (and the default expressions of its type) differ
+fn outer_versions(outer: &HistorySpec, inner: &HistorySpec, iv: &[Record], j: usize) -> Vec<Record> {
+    let a = |t: Ty| Arc::new(t);
+    let it = Ty::Adt(struct_decl(&inner_name(inner, j), &iv[j]));
+    build_history(outer, &[Ty::U8, it.clone(), Ty::Str, Ty::Option(a(it.clone())), Ty::Vec(a(it.clone())), Ty::Option(a(Ty::U32)), it.clone(), Ty::Tuple(vec![Ty::U8, it.clone(), Ty::Str]), Ty::Vec(a(Ty::U16)), Ty::BTreeMap(a(Ty::U8), a(it))])
+}
+
+pub fn nested_case_strategy() -> BoxedStrategy<NestedCase> {
+    (history_spec_strategy(3, 5), history_spec_strategy(3, 4), any::<(u16, u16, u16, u16)>(), prop::sample::select(vec![Placement::Top, Placement::Top, Placement::Between, Placement::InVec, Placement::InOption, Placement::InVariant]))
+        .prop_flat_map(|(outer, inner, (a, b, x, y), placement)| {
+            let iv = inner_versions(&inner);
+            let no = outer_versions(&outer, &inner, &iv, 0).len();
+            let (ow, or) = (pick(a, no), pick(b, no));
+            let (mut iw, mut ir) = (pick(x, iv.len()), pick(y, iv.len()));
+            // monotone: the side with the newer outer definition does not have the older inner one
+            if (ow < or && iw > ir) || (ow > or && iw < ir) {
+                std::mem::swap(&mut iw, &mut ir);
+            }
+            let tw = wrap(placement, Ty::Adt(struct_decl("W", &outer_versions(&outer, &inner, &iv, iw)[ow])));
+            let cfg = ValCfg { max_len: 3, long: false, ..ValCfg::default() };
+            (Just((outer, inner, ow, or, iw, ir, placement)), val_strategy(&tw, cfg))
+        })
+        .prop_map(|((outer, inner, ow, or, iw, ir, placement), val)| NestedCase { outer, inner, ow, or, iw, ir, placement, val })
+        .boxed()
+}
+
+/// what the reader makes of a written value whose type mentions the nested declaration
+fn adapt_nested(iv: &[Record], iw: usize, ir: usize, tw: &Ty, tr: &Ty, x: &Val, classes: &mut Vec<String>, unframed: &mut bool) -> Result<Val, ReadErr> {
+    match (tw, tr, x) {
+        (Ty::Adt(dw), Ty::Adt(_), v) if dw.name.starts_with("DynI") => {
+            if unframed_removal(iv, iw, ir) {
+                *unframed = true;
+            }
+            let (res, cls) = expected_read(iv, iw, ir, v);
+            for c in cls {
+                classes.push(format!("inner {c:?}"));
+            }
+            res
+        }
+        (Ty::Option(a), Ty::Option(b), Val::Some(v)) => Ok(Val::some(adapt_nested(iv, iw, ir, a, b, v, classes, unframed)?)),
+        (Ty::Vec(a), Ty::Vec(b), Val::Seq(xs)) => Ok(Val::Seq(xs.iter().map(|v| adapt_nested(iv, iw, ir, a, b, v, classes, unframed)).collect::<Result<_, _>>()?)),
+        // what is written is the map, not the generated pair list: one entry per key (the last one), in key order
+        (Ty::BTreeMap(_, a), Ty::BTreeMap(_, b), Val::Map(_)) => {
+            let kvs = match canon(tw, x) {
+                Val::Map(kvs) => kvs,
+                _ => unreachable!(),
+            };
+            Ok(Val::Map(kvs.iter().map(|(k, v)| Ok((k.clone(), adapt_nested(iv, iw, ir, a, b, v, classes, unframed)?))).collect::<Result<_, ReadErr>>()?))
+        }
+        (Ty::Tuple(ta), Ty::Tuple(tb), Val::Tuple(xs)) => Ok(Val::Tuple(xs.iter().enumerate().map(|(i, v)| adapt_nested(iv, iw, ir, &ta[i], &tb[i], v, classes, unframed)).collect::<Result<_, _>>()?)),
+        (_, _, v) => Ok(v.clone()),
+    }
+}
+
+pub fn check_c03_nested(c: &NestedCase, acc: &mut Acc, record: bool) -> Verdict {
+    let iv = inner_versions(&c.inner);
+    if c.iw >= iv.len() || c.ir >= iv.len() {
+        return Verdict::Skip;
+    }
+    let wv = outer_versions(&c.outer, &c.inner, &iv, c.iw);
+    let rv = outer_versions(&c.outer, &c.inner, &iv, c.ir);
+    if c.ow >= wv.len() || c.or >= rv.len() {
+        return Verdict::Skip;
+    }
+    let embedded = c.placement != Placement::Top;
+    if embedded && unframed_removal(&wv, c.ow, c.or) {
+        if record {
+            acc.exclude("embedded + stored version 0 + reader removed a chunk-0 field (DESIGN section 9: the format has no framing)");
+        }
+        return Verdict::Skip;
+    }
+    let tw = wrap(c.placement, Ty::Adt(struct_decl(&format!("DynO{:08x}i{}v{}", hash_json(&c.outer) as u32, c.iw, c.ow), &wv[c.ow])));
+    let tr = wrap(c.placement, Ty::Adt(struct_decl(&format!("DynO{:08x}i{}v{}", hash_json(&c.outer) as u32, c.ir, c.or), &rv[c.or])));
+    let mut classes: Vec<String> = Vec::new();
+    let mut unframed = false;
+    let mut one = |x: &Val, classes: &mut Vec<String>, unframed: &mut bool| {
+        let mut inner_cls = Vec::new();
+        let (res, cls) = expected_read_adapt(&wv[c.ow], &rv[c.or], rv.last().unwrap(), c.ow, c.or, x, &mut |a, b, v| adapt_nested(&iv, c.iw, c.ir, a, b, v, &mut inner_cls, unframed));
+        for k in cls {
+            classes.push(format!("outer {k:?}"));
+        }
+        classes.extend(inner_cls);
+        res
+    };
+    let expected: Result<Val, ReadErr> = match (c.placement, &c.val) {
+        (Placement::Top, x) => one(x, &mut classes, &mut unframed),
+        (Placement::Between, Val::Tuple(xs)) => one(&xs[1], &mut classes, &mut unframed).map(|v| Val::Tuple(vec![xs[0].clone(), v, xs[2].clone()])),
+        (Placement::InVec, Val::Seq(xs)) => xs.iter().map(|x| one(x, &mut classes, &mut unframed)).collect::<Result<Vec<_>, _>>().map(Val::Seq),
+        (Placement::InOption, Val::None) => Ok(Val::None),
+        (Placement::InOption, Val::Some(x)) => one(x, &mut classes, &mut unframed).map(Val::some),
+        (Placement::InVariant, Val::Variant(0, _)) => Ok(c.val.clone()),
+        (Placement::InVariant, Val::Variant(1, fs)) => one(&Val::Rec(fs.clone()), &mut classes, &mut unframed).map(|v| match v {
+            Val::Rec(out) => Val::Variant(1, out),
+            o => o,
+        }),
+        (p, v) => panic!("nested placement {p:?} {v:?}"),
+    };
+    if unframed {
+        // the nested record is embedded by nature: stored version 0 read by a definition that dropped a chunk-0 field
+        if record {
+            acc.exclude("nested record: stored version 0 + reader removed a chunk-0 field (DESIGN section 9)");
+        }
+        return Verdict::Skip;
+    }
+    let bytes = match vcat::encode(&tw, &c.val).0 {
+        Ok(b) => b,
+        Err(e) => return Verdict::Fail(format!("application version (outer {}, inner {}) cannot encode its own value: {e:?}", c.ow, c.iw)),
+    };
+    if record {
+        classes.sort();
+        classes.dedup();
+        let rel = |a: usize, b: usize| if a < b { "<" } else if a == b { "=" } else { ">" };
+        let class = format!("nested: outer w{}r inner w{}r {:?}", rel(c.ow, c.or), rel(c.iw, c.ir), c.placement);
+        let h = hash_json(c);
+        acc.case(&class, h, c.iw != c.ir);
+        for cl in &classes {
+            acc.bump(&format!("nested branch: {cl}"), 1);
+        }
+        if c.iw != c.ir && acc.wants_sample(&class) {
+            acc.sample(&class, json!({"writer": vmodel::render::decl_src(&struct_decl("W", &wv[c.ow])), "writer_inner": vmodel::render::decl_src(&struct_decl("I", &iv[c.iw])), "reader": vmodel::render::decl_src(&struct_decl("R", &rv[c.or])), "reader_inner": vmodel::render::decl_src(&struct_decl("I", &iv[c.ir])), "value": c.val.brief(), "bytes_hex": hex(&bytes[..bytes.len().min(64)]), "expected": format!("{:?}", expected.as_ref().map(|v| v.brief()))}));
+        }
+    }
+    let (got, rest) = vcat::decode_with_rest(&tr, &bytes);
+    let ctx = || format!("writer = (outer v{}, inner v{}), reader = (outer v{}, inner v{}), outer steps {:?}, inner steps {:?}, value {}, bytes {}", c.ow, c.iw, c.or, c.ir, rv.last().unwrap().steps, iv.last().unwrap().steps, c.val.brief(), hex(&bytes));
+    let verdict = match (&expected, &got) {
+        (Ok(e), Ok(g)) => {
+            let e = &vmodel::with_transient_defaults(&tr, e);
+            if canon(&tr, g) != canon(&tr, e) {
+                Verdict::Fail(format!("read as {} — documented outcome is {} ({})", g.brief(), e.brief(), ctx()))
+            } else if !rest.is_empty() && !unframed_removal(&wv, c.ow, c.or) {
+                Verdict::Fail(format!("read correctly but {} bytes left unread ({})", rest.len(), ctx()))
+            } else {
+                Verdict::Pass
+            }
+        }
+        (Err(e), Err(g)) => {
+            let (kind, field) = match e {
+                ReadErr::FieldRemovedInSerializedVersion(f) => ("FieldRemovedInSerializedVersion", f),
+                ReadErr::NonOptionalFieldSerializedAsNone(f) => ("NonOptionalFieldSerializedAsNone", f),
+            };
+            if g.kind == kind && g.detail.contains(&format!("\"{field}\"")) {
+                Verdict::Pass
+            } else {
+                Verdict::Fail(format!("expected {kind}({field}), got {g:?} ({})", ctx()))
+            }
+        }
+        (Ok(e), Err(g)) => Verdict::Fail(format!("failed with {g:?}; documented outcome is {} ({})", e.brief(), ctx())),
+        (Err(e), Ok(g)) => Verdict::Fail(format!("read as {} — documented outcome is the error {e:?} ({})", g.brief(), ctx())),
+    };
+    if let Verdict::Fail(_) = &verdict {
+        if (c.ow != c.or || c.iw != c.ir) && f17_explains(&tw, &tr, &bytes, &got).is_some() {
+            if record {
+                acc.exclude(F17_EXCLUDED);
+                *acc.known.entry("F17".into()).or_insert(0) += 1;
+            }
+            return Verdict::Skip;
+        }
+    }
+    verdict
 }
